@@ -149,6 +149,19 @@ func c05SetClip(r *c05Rec) {
 	c05ClipMu.Unlock()
 }
 
+// set when a scanner was seen to panic (see genC05Filter): live filters then run without it
+var c05NoOSC52, c05NoDrag bool
+
+func c05Mask(o trzsz.TrzszOptions) trzsz.TrzszOptions {
+	if c05NoOSC52 {
+		o.EnableOSC52 = false
+	}
+	if c05NoDrag {
+		o.DetectDragFile = false
+	}
+	return o
+}
+
 func c05Opts(i int) trzsz.TrzszOptions {
 	return trzsz.TrzszOptions{DetectDragFile: i&1 != 0, DetectTraceLog: i&2 != 0, EnableZmodem: i&4 != 0, EnableOSC52: i&8 != 0}
 }
@@ -479,6 +492,7 @@ func genC05Filter(c *ctx) {
 
 	// one case = one filter fed an event list; idleOnly = the harness expects pure identity
 	runCase := func(o trzsz.TrzszOptions, evs []c05Ev, label string) {
+		o = c05Mask(o)
 		x := c05New(o)
 		if o.EnableOSC52 {
 			c05SetClip(x.rec)
@@ -547,6 +561,147 @@ func genC05Filter(c *ctx) {
 	}
 	isTraceMarker := func(b []byte) bool {
 		return bytes.Contains(b, []byte("<ENABLE_TRZSZ_TRACE_LOG>")) || bytes.Contains(b, []byte("<DISABLE_TRZSZ_TRACE_LOG>"))
+	}
+
+	// a panic inside a pump goroutine of a live filter cannot be recovered and would take this
+	// process (and its report) down: the scanners are therefore swept FIRST, directly and under
+	// recover; if one of them panics, the option that reaches it is switched off for the live filters
+	before := len(c.violations)
+	// (4) scanners in isolation: drag detection and echo trimming against the model
+	nScan := c.pick(1500, 20000)
+	for k := 0; k < nScan; k++ {
+		var b []byte
+		kindOfInput := c.rng.Intn(4)
+		switch kindOfInput {
+		case 0:
+			b, _ = paths.aDrag(c.rng)
+		case 1, 2:
+			b = paths.notADrag(c.rng)
+		case 3:
+			b = c05Random(c.rng)
+			if c05PathShaped(b) {
+				b[len(b)-1] = '.'
+			}
+		}
+		var files []string
+		var hasDir, ignore, win bool
+		if pt := c05Catch(func() { files, hasDir, ignore, win = trzsz.VerifDetectDragFiles(b) }); pt != "" {
+			c.violate("scanner-panic:drag:"+hx(b), "detectDragFiles panics on typed input (it runs in the input pump: the process dies)", fmt.Sprintf("detectDragFiles(%q): %s", b, pt))
+			continue
+		}
+		if files != nil && kindOfInput != 0 {
+			// DIRECT ORACLE: typed input that is not entirely a list of existing files/directories
+			c.violate("drag-false-positive", "typed input that is not entirely a list of existing regular files / directories would be swallowed as a drag upload",
+				fmt.Sprintf("detectDragFiles(%q) = %q", b, files))
+		}
+		res := "none"
+		if files != nil {
+			var fs [][]byte
+			for _, f := range files {
+				fs = append(fs, []byte(f))
+			}
+			res = "files:" + hxs(fs) + ":" + map[bool]string{true: "1", false: "0"}[hasDir]
+			c.count("drag:fires")
+		} else {
+			c.count("drag:silent")
+		}
+		res += ":" + map[bool]string{true: "1", false: "0"}[ignore] + ":" + map[bool]string{true: "1", false: "0"}[win]
+		c.emit(files != nil || bytes.Contains(b, []byte("\x1b[20")), "c05_drag", res, table, hx(b))
+		e := []byte(c05Escapes[c.rng.Intn(len(c05Escapes))] + "trz" + c05Escapes[c.rng.Intn(len(c05Escapes))])
+		if c.rng.Intn(2) == 0 {
+			e = c05Random(c.rng)
+		}
+		var trimmed []byte
+		if pt := c05Catch(func() { trimmed = trzsz.VerifTrimVT100(e) }); pt != "" {
+			c.violate("scanner-panic:trimvt100:"+hx(e), "trimVT100 panics on server output (it runs in the output pump: the process dies)", fmt.Sprintf("trimVT100(%q): %s", e, pt))
+			continue
+		}
+		c.emit(bytes.IndexByte(e, 0x1b) >= 0, "c05_trim", hx([]byte(strings.TrimRight(string(trimmed), "\r\n"))), hx(e))
+	}
+
+	// (4b) every prefix and every suffix of drag lists through detectDragFiles (index errors)
+	for k := 0; k < c.pick(6, 30); k++ {
+		whole, _ := paths.aDrag(c.rng)
+		for cut := 0; cut <= len(whole); cut++ {
+			for _, b := range [][]byte{whole[:cut], whole[cut:]} {
+				if len(b) == 0 {
+					continue
+				}
+				b := b
+				var files []string
+				var hasDir, ignore, win bool
+				if pt := c05Catch(func() { files, hasDir, ignore, win = trzsz.VerifDetectDragFiles(b) }); pt != "" {
+					c.violate("scanner-panic:drag:"+hx(b), "detectDragFiles panics on typed input (it runs in the input pump: the process dies)", fmt.Sprintf("detectDragFiles(%q): %s", b, pt))
+					continue
+				}
+				res := "none"
+				if files != nil {
+					var fs [][]byte
+					for _, f := range files {
+						fs = append(fs, []byte(f))
+					}
+					res = "files:" + hxs(fs) + ":" + map[bool]string{true: "1", false: "0"}[hasDir]
+				}
+				res += ":" + map[bool]string{true: "1", false: "0"}[ignore] + ":" + map[bool]string{true: "1", false: "0"}[win]
+				c.emit(true, "c05_drag", res, table, hx(b))
+				c.count("drag:cut-sweep")
+			}
+		}
+	}
+
+	// (4c) OSC52: EVERY 2-chunk and 3-chunk split of complete sequences, fed to the real scanner
+	// (filter.detectOSC52 called directly, under recover) and to the model
+	oscSeqs := []string{
+		"\x1b]52;c;QUJD\a",
+		"\x1b]52;p;QUJD\x1b\\",
+		"\x1b]52;x;QUJD\a",
+		"\x1b]52;c;\a",
+		"\x1b]52;c;\x1b\\",
+		"ab\x1b]52;q;\x1b]52;c;QQ==\acd",
+		"\x1b]52;c;QUJD\a\x1b]52;p;RUZH\x1b\\",
+		"\x1b]52;\x1b]52;c;QQ==\a",
+		"\x1b]52;c\x1b]52;p;Qg==\a",
+		"\x1b]52;cc;Qg==\a\x1b]52;c;;\a",
+	}
+	oscCase := func(desc string, chunks [][]byte) {
+		var clips [][]byte
+		var pending []byte
+		var has bool
+		at, ptxt := -1, ""
+		if pt := c05Catch(func() { clips, pending, has, at, ptxt = trzsz.VerifOSC52Scan(chunks) }); pt != "" {
+			at, ptxt = 0, pt
+		}
+		if at >= 0 {
+			c.violate("scanner-panic:osc52:"+desc, "detectOSC52 panics on server output (it runs in the output pump goroutine: the whole process dies)",
+				fmt.Sprintf("chunks %s: panic on chunk %d (%q): %s", hxs(chunks), at, chunks[at], ptxt))
+			c.emit(true, "c05_osc52", "panic", hxs(chunks))
+			return
+		}
+		res := "n"
+		if has {
+			res = "b" + hx(pending)
+		}
+		c.emit(len(chunks) > 1, "c05_osc52", res+"|"+hxs(clips), hxs(chunks))
+		c.count(fmt.Sprintf("osc52-sweep:%d-chunks", len(chunks)))
+	}
+	for si, sq := range oscSeqs {
+		b := []byte(sq)
+		oscCase(fmt.Sprintf("seq%d:whole", si), [][]byte{b})
+		for i := 1; i < len(b); i++ {
+			oscCase(fmt.Sprintf("seq%d:cut@%d", si, i), [][]byte{b[:i], b[i:]})
+			for j := i + 1; j < len(b); j++ {
+				oscCase(fmt.Sprintf("seq%d:cut@%d,%d", si, i, j), [][]byte{b[:i], b[i:j], b[j:]})
+			}
+		}
+	}
+
+	for _, v := range c.violations[before:] {
+		if strings.HasPrefix(v["key"], "scanner-panic:osc52") {
+			c05NoOSC52 = true
+		}
+		if strings.HasPrefix(v["key"], "scanner-panic:drag") || strings.HasPrefix(v["key"], "scanner-panic:trimvt100") {
+			c05NoDrag = true
+		}
 	}
 
 	// (1) every single-byte truncation / deletion / corruption of real trigger lines, all option sets
@@ -690,56 +845,18 @@ func genC05Filter(c *ctx) {
 		}
 	}
 
-	// (4) scanners in isolation: drag detection and echo trimming against the model
-	nScan := c.pick(1500, 20000)
-	for k := 0; k < nScan; k++ {
-		var b []byte
-		kindOfInput := c.rng.Intn(4)
-		switch kindOfInput {
-		case 0:
-			b, _ = paths.aDrag(c.rng)
-		case 1, 2:
-			b = paths.notADrag(c.rng)
-		case 3:
-			b = c05Random(c.rng)
-			if c05PathShaped(b) {
-				b[len(b)-1] = '.'
-			}
-		}
-		files, hasDir, ignore, win := trzsz.VerifDetectDragFiles(b)
-		if files != nil && kindOfInput != 0 {
-			// DIRECT ORACLE: typed input that is not entirely a list of existing files/directories
-			c.violate("drag-false-positive", "typed input that is not entirely a list of existing regular files / directories would be swallowed as a drag upload",
-				fmt.Sprintf("detectDragFiles(%q) = %q", b, files))
-		}
-		res := "none"
-		if files != nil {
-			var fs [][]byte
-			for _, f := range files {
-				fs = append(fs, []byte(f))
-			}
-			res = "files:" + hxs(fs) + ":" + map[bool]string{true: "1", false: "0"}[hasDir]
-			c.count("drag:fires")
-		} else {
-			c.count("drag:silent")
-		}
-		res += ":" + map[bool]string{true: "1", false: "0"}[ignore] + ":" + map[bool]string{true: "1", false: "0"}[win]
-		c.emit(files != nil || bytes.Contains(b, []byte("\x1b[20")), "c05_drag", res, table, hx(b))
-		e := []byte(c05Escapes[c.rng.Intn(len(c05Escapes))] + "trz" + c05Escapes[c.rng.Intn(len(c05Escapes))])
-		if c.rng.Intn(2) == 0 {
-			e = c05Random(c.rng)
-		}
-		c.emit(bytes.IndexByte(e, 0x1b) >= 0, "c05_trim", hx([]byte(strings.TrimRight(string(trzsz.VerifTrimVT100(e)), "\r\n"))), hx(e))
-	}
-
 	// (5) the documented exception on the input side: a list of EXISTING paths is swallowed
 	// and starts a drag upload (ctrl-C, 200 ms during which server output is dropped, the
 	// upload command, suppression of its echo).  A few, in parallel (they sleep).
-	nDrag := c.pick(6, 24)
+	nDrag := c.pick(10, 30)
+	if c05NoDrag {
+		nDrag = 0
+	}
 	type dragOut struct {
 		args   []string
 		result string
 		viol   string
+		key    string
 	}
 	outs := make([]dragOut, nDrag)
 	seeds := make([]int64, nDrag)
@@ -767,7 +884,7 @@ func genC05Filter(c *ctx) {
 		feedIn([]byte("echo before\r"))
 		feedOut([]byte("before\r\n$ "))
 		list, hasDir := paths.aDrag(rng)
-		variant := i % 4
+		variant := i % 5
 		feedIn(list)
 		if variant == 3 {
 			// the user types something else before the upload starts: the drag is abandoned
@@ -799,12 +916,47 @@ func genC05Filter(c *ctx) {
 				outs[i].viol = "the drag upload never typed the upload command " + full
 			}
 			toks = append(toks, "g0")
-			if variant == 1 {
+			if variant == 4 {
+				// the echo of the command does NOT arrive as a chunk of its own: it is glued to what
+				// follows.  That chunk is not the bare echo, so it passes, and the suppression is spent.
+				// Everything the remote side sends afterwards must reach the terminal - also chunks
+				// that look like the echo.
+				word := strings.Fields(full)[0]
+				after := [][]byte{
+					[]byte(full + "\r\n-bash: " + word + ": command not found\r\n$ "),
+					[]byte("$ echo " + full + "\r\n"),
+					[]byte(full + "\r\n"),
+					[]byte("\x1b[0m" + full + "\x1b[K\r\n"),
+					[]byte(full),
+					[]byte(full + "\r"),
+					[]byte(full + "\n\r\n"),
+					[]byte(full + " \r\n"),
+					[]byte(" " + full + "\r\n"),
+					[]byte(full[:len(full)-1] + "\r\n"),
+					[]byte(full + "x\r\n"),
+					[]byte("\x1b" + full + "\r\n"),
+					[]byte("$ "),
+				}
+				for k, b := range after {
+					if k == 2 {
+						feedIn([]byte("ls\r")) // the user carries on
+					}
+					at := x.rec.length()
+					feedOut(b)
+					if got := x.rec.snapshot()[at:]; !c05Only(got, 't', b) && outs[i].viol == "" {
+						outs[i].key = "idle-output-altered:after-drag"
+						outs[i].viol = fmt.Sprintf("after a drag upload whose command echo arrived glued to other output (%q), the remote output %q reached the terminal as %v",
+							after[0], b, got)
+					}
+				}
+			} else if variant == 1 {
 				feedOut([]byte("\x1b[?2004l\x1b[1m" + full + "\x1b[0m\r\n")) // echo, decorated
 			} else {
 				feedOut([]byte(full + "\r\n"))
 			}
-			feedOut([]byte(full + "\r\n")) // a second identical chunk is NOT suppressed
+			if variant != 4 {
+				feedOut([]byte(full + "\r\n")) // a second identical chunk is NOT suppressed
+			}
 			// DIRECT ORACLE: once ctrl-C, the command and its echo are through, output passes again
 			mark := []byte(fmt.Sprintf("after-drag-%d\r\n$ ", i))
 			at := x.rec.length()
@@ -822,9 +974,24 @@ func genC05Filter(c *ctx) {
 		c.emit(true, "c05_run", outs[i].result, outs[i].args...)
 		c.count("case:drag-exception")
 		if outs[i].viol != "" {
-			c.violate("drag-upload", outs[i].viol, strings.Join(outs[i].args, " "))
+			key := outs[i].key
+			if key == "" {
+				key = "drag-upload"
+			}
+			c.violate(key, outs[i].viol, strings.Join(outs[i].args, " "))
 		}
 	}
+}
+
+// c05Catch runs f in this goroutine and returns the panic text ("" = no panic)
+func c05Catch(f func()) (p string) {
+	defer func() {
+		if r := recover(); r != nil {
+			p = fmt.Sprint(r)
+		}
+	}()
+	f()
+	return ""
 }
 
 type c05Ev struct {
@@ -1229,6 +1396,16 @@ func genC05History(c *ctx) {
 	os.WriteFile(filepath.Join(fake, "zenity"), []byte("#!/bin/sh\nexit 1\n"), 0755)
 	os.Setenv("PATH", fake+":"+os.Getenv("PATH"))
 	c05InstallClipboard()
+	// the probes contain OSC52-like fragments: do not take a live pump goroutine down with them
+	for _, sq := range []string{"\x1b]52;c;QQ==\a", "\x1b]52;x;Q\x1b\\"} {
+		b := []byte(sq)
+		for i := 1; i < len(b); i++ {
+			at := -1
+			if pt := c05Catch(func() { _, _, _, at, _ = trzsz.VerifOSC52Scan([][]byte{b[:i], b[i:]}) }); pt != "" || at >= 0 {
+				c05NoOSC52 = true
+			}
+		}
+	}
 	hs := c05Histories()
 	reps := c.pick(2, 12)
 	type job struct {
@@ -1251,7 +1428,7 @@ func genC05History(c *ctx) {
 	parallelDo(len(jobs), 16, func(i int) {
 		j := jobs[i]
 		rng := rand.New(rand.NewSource(j.seed))
-		o := c05Opts(j.oi)
+		o := c05Mask(c05Opts(j.oi))
 		x := c05New(o)
 		w := filepath.Join(work, fmt.Sprint("h", j.n))
 		os.MkdirAll(w, 0755)
